@@ -72,3 +72,13 @@ Theorem C09_folding_agrees_with_evaluation_repaired :
         forall fuel cs' cv, ceval E csub xi fuel cs e = Some (cs', cv) -> cs' = cs /\ agrees pv cv ilv.
 Proof. exact expr_correct_unconditional. Qed.
 Print Assumptions C09_folding_agrees_with_evaluation_repaired.
+
+(* the literal typing table of the FAITHFUL model (suffix -> type) is the compiler's: get_value_type_by_c_number executed on the
+   suffix spellings on every run (gen/OpTablesGen.v) *)
+From RZ.gen Require Import OpTablesGen.
+From RZ.proofs Require Import OpTablesProofs.
+Theorem C09_literal_suffix_table_is_the_compilers :
+  forallb (fun r : string * option (bool * N) =>
+             otype_eqb (snd r) (option_map (fun t => (vt_sg t, vt_w t)) (number_vtype (fst r)))) number_type_table = true.
+Proof. exact number_type_table_ok. Qed.
+Print Assumptions C09_literal_suffix_table_is_the_compilers.
